@@ -1,7 +1,7 @@
 #!/bin/bash
 # usage: tools/seedtest.sh <agent-worktree> <seed-name> <property> [<property>...]
 # 1. confirms the seeded change independently in a fresh scratch worktree
-# 2. applies it to /repo, runs the quick checks of the given properties, undoes it
+# 2. runs the quick checks of the given properties against that scratch worktree (VERIF_REPO)
 set -u
 src=$1; name=$2; shift 2
 export GOFLAGS=-mod=mod GOPROXY=off GOSUMDB=off GOTOOLCHAIN=local
@@ -25,10 +25,11 @@ for d in $demos; do rm -f $sv/$d; done
 (cd $sv && go test -vet=off -count=1 ./... > /tmp/sv/$name.tests.log 2>&1) && res_tests=pass || res_tests=FAIL
 for d in $demos; do cp $src/$d $sv/$d; done
 (cd $sv && go test -vet=off -count=1 -run "^($run)\$" $pkgs > /tmp/sv/$name.seeded.log 2>&1) && res_demo_seeded=PASS-unexpected || res_demo_seeded=fails
-git -C /repo worktree remove --force $sv
+for d in $demos; do rm -f $sv/$d; done
 echo "confirm: demo-on-clean=$res_demo_clean build=$res_build existing-tests=$res_tests demo-on-seeded=$res_demo_seeded"
-# run the checks against the seeded tree
-git -C /repo apply $out/patch.diff || exit 2
+# run the checks against the seeded scratch tree (VERIF_REPO: /repo itself is not touched)
+export VERIF_REPO=$sv VERIF_OUT=/tmp/sv/out_$name
+mkdir -p $VERIF_OUT
 results=""
 for p in "$@"; do
   o=$(cd /verif && timeout 1500 bin/gosymex check -property $p -tier quick 2>&1); rc=$?
@@ -37,7 +38,7 @@ for p in "$@"; do
   echo "$o" | grep '^INCONCLUSIVE\|^ENCODER\|^HARNESS' | head -3 | cut -c1-200
   results="$results\"$p\":{\"exit\":$rc,\"violation_lines\":$v},"
 done
-git -C /repo checkout -- . 
+git -C /repo worktree remove --force $sv; rm -rf $VERIF_OUT
 cat > $out/meta.json <<EOM
 {"seed":"$name","breaks_properties_per_author":"see agent_notes.md","confirmed":{"demo_on_unchanged_tree":"$res_demo_clean","build_with_change":"$res_build","existing_tests_with_change":"$res_tests","demo_with_change":"$res_demo_seeded"},
  "demo_tests":"$run","demo_packages":"$pkgs","checks_run_quick":{${results%,}},"ran":"tools/seedtest.sh at $(date -u +%FT%TZ) against /repo $(git -C /repo log --format=%h -1)"}
